@@ -266,3 +266,408 @@ class System:
                 v[(c.row, 2)] = r.tid
                 v[(c.row, 1)] = r.proc.pid
         return v
+
+
+# ===========================================================================
+# Model channels (all eight models), tasks, marks, views
+# ===========================================================================
+import json as _json
+import os as _os
+
+_SPEC = None
+
+
+def spec():
+    global _SPEC
+    if _SPEC is None:
+        p = _os.path.join(_os.path.dirname(_os.path.dirname(_os.path.abspath(__file__))), "spec", "events.json")
+        with open(p) as f:
+            _SPEC = _json.load(f)
+    return _SPEC
+
+
+MAX_STACK = 512
+TASK_BODY = {"V": "Task: In body", "6": "Task: Running body"}
+PCF_RESERVED = 100
+
+
+class Body:
+    def __init__(self, task, bid):
+        self.task, self.id = task, bid
+        self.state = "created"
+        self.thread = None
+
+
+class Task:
+    def __init__(self, tid, ttype, parallel=False, resurrect=False, pause=True, relax=False):
+        self.id, self.type = tid, ttype
+        self.parallel, self.resurrect, self.can_pause, self.relax = parallel, resurrect, pause, relax
+        self.bodies = {}
+
+
+class TaskInfo:
+    def __init__(self):
+        self.types = {}    # id -> label
+        self.tasks = {}
+
+
+class FullSystem(System):
+    """System + per-thread model channels.  `enabled` is the set of model
+    characters required by the trace (O always)."""
+
+    def __init__(self, desc, enabled="O", marks=None):
+        System.__init__(self, desc)
+        self.sp = spec()
+        self.enabled = set(enabled) | {"O"}
+        self.marks = marks or {}      # type -> "single" | "stack"
+        for t in self.thread_rows:
+            t.ch = {}
+            for mc in self.enabled:
+                for cn, c in self.sp["models"][mc]["channels"].items():
+                    t.ch[(mc, cn)] = [] if c["kind"] == "stack" else None
+                if mc in "V6":
+                    t.ch[(mc, "idle")] = "Progressing"
+            t.mark = {ty: ([] if k == "stack" else None) for ty, k in self.marks.items()}
+            t.bodies = {"V": [], "6": []}   # body stacks, top = last
+        for l in self.looms.values():
+            for p in l.procs.values():
+                p.tinfo = {"V": TaskInfo(), "6": TaskInfo()}
+
+    # -- generic helpers ----------------------------------------------------
+    def _chanspec(self, mc, cn):
+        return self.sp["models"][mc]["channels"][cn]
+
+    def _push(self, th, mc, cn, label):
+        c = self._chanspec(mc, cn)
+        st = th.ch[(mc, cn)]
+        if not c["dup"] and st and st[-1] == label:
+            raise Reject("re-entering the innermost open region %s" % label)
+        if len(st) >= MAX_STACK:
+            raise Reject("stack full")
+        st.append(label)
+
+    def _pop(self, th, mc, cn, label):
+        st = th.ch[(mc, cn)]
+        if not st:
+            raise Reject("leave without enter (%s)" % label)
+        if st[-1] != label:
+            raise Reject("leave %s does not match innermost %s" % (label, st[-1]))
+        st.pop()
+
+    def _set(self, th, mc, cn, label):
+        c = self._chanspec(mc, cn)
+        if not c["dup"] and th.ch[(mc, cn)] == label:
+            raise Reject("value %s already set" % label)
+        th.ch[(mc, cn)] = label
+
+    def _need(self, th, mc):
+        need = self.sp["models"][mc]["need"]
+        if need == "active" and not th.active:
+            raise Reject("thread not active")
+        if need == "running" and not th.running:
+            raise Reject("thread not running")
+
+    # -- dispatcher -----------------------------------------------------------
+    def event(self, key, mcv, payload=b"", jumbo=False):
+        th = self.thread(key)
+        mc = mcv[0]
+        if mc not in self.sp["models"]:
+            raise Reject("unknown model %r" % mc)
+        if mc not in self.enabled:
+            raise Reject("model %s not enabled" % mc)
+        if mc == "O":
+            return self._ovni(th, mcv, payload, jumbo)
+        if mc == "K":
+            return self._kernel(th, mcv)
+        self._need(th, mc)
+        if mc == "V" and th.out_of_cpu:
+            raise Reject("thread out of CPU")
+        e = self.sp["events"].get(mcv)
+        if e is None:
+            raise Reject("unknown event %s" % mcv)
+        if e["op"] == "special":
+            return self._task_event(th, mcv, payload, jumbo)
+        self._simple(th, mc, e)
+
+    def _simple(self, th, mc, e):
+        if e["op"] == "push":
+            self._push(th, mc, e["ch"], e["label"])
+        elif e["op"] == "pop":
+            self._pop(th, mc, e["ch"], e["label"])
+        elif e["op"] == "set":
+            self._set(th, mc, e["ch"], e["label"])
+        elif e["op"] == "ign":
+            pass
+        else:
+            raise KeyError(e)
+
+    def _kernel(self, th, mcv):
+        if mcv == "KCO":
+            self._push(th, "K", "cs", self.sp["events"]["KCO"]["label"])
+            th.out_of_cpu = True
+        elif mcv == "KCI":
+            self._pop(th, "K", "cs", self.sp["events"]["KCO"]["label"])
+            th.out_of_cpu = False
+        else:
+            raise Reject("unknown kernel event")
+
+    def _ovni(self, th, mcv, payload, jumbo):
+        if th.out_of_cpu:
+            raise Reject("thread out of CPU")
+        c, v = mcv[1], mcv[2]
+        if c in "HA":
+            return self.ovni_event(th, mcv, payload)
+        if c == "F":
+            if v == "[":
+                self._set(th, "O", "flush", "Flushing")
+            elif v == "]":
+                self._set(th, "O", "flush", None)
+            else:
+                raise Reject("unknown flush event")
+        elif c in "BU":
+            pass          # value byte ignored (burst / unordered region)
+        elif c == "C":
+            if v != "n":
+                raise Reject("unknown cpu event")
+        elif c == "M":
+            self._mark(th, v, payload)
+        else:
+            raise Reject("unknown ovni category")
+
+    def _mark(self, th, v, payload):
+        if len(payload) != 12:
+            raise Reject("bad mark payload")
+        value, ty = struct.unpack("<qi", payload)
+        if ty not in self.marks:
+            raise Reject("mark type %d not defined" % ty)
+        kind = self.marks[ty]
+        if value == 0:
+            raise Reject("mark value 0")
+        if v == "=":
+            if kind != "single":
+                raise Reject("set on a stack mark type")
+            th.mark[ty] = value
+        elif v == "[":
+            if kind != "stack":
+                raise Reject("push on a single mark type")
+            if len(th.mark[ty]) >= MAX_STACK:
+                raise Reject("stack full")
+            th.mark[ty].append(value)
+        elif v == "]":
+            if kind != "stack":
+                raise Reject("pop on a single mark type")
+            if not th.mark[ty] or th.mark[ty][-1] != value:
+                raise Reject("pop does not match top")
+            th.mark[ty].pop()
+        else:
+            raise Reject("unknown mark event")
+
+    # -- tasks --------------------------------------------------------------
+    def _task_event(self, th, mcv, payload, jumbo):
+        mc, c, v = mcv[0], mcv[1], mcv[2]
+        info = th.proc.tinfo[mc]
+        if c == "Y":
+            if v != "c":
+                raise Reject("unknown type event")
+            if not jumbo:
+                raise Reject("type create must be jumbo")
+            if len(payload) < 5 or b"\0" not in payload[4:]:
+                raise Reject("malformed type payload")
+            tid = struct.unpack_from("<I", payload)[0]
+            label = payload[4:payload.index(b"\0", 4)].decode("latin-1")
+            if tid in info.types:
+                raise Reject("type exists")
+            if tid == 0:
+                raise Reject("type id 0")
+            info.types[tid] = label if label else "(unlabeled task type %d)" % tid
+            return
+        if v in "cC":
+            if mc == "6" and v == "C":
+                return          # legacy, ignored with a warning
+            if len(payload) < 8 or (mc == "6" and len(payload) != 8):
+                raise Reject("bad payload")
+            task, ty = struct.unpack_from("<II", payload)
+            if task in info.tasks:
+                raise Reject("task exists")
+            if ty not in info.types:
+                raise Reject("unknown type")
+            if mc == "V":
+                t = Task(task, ty, parallel=(v == "C"), resurrect=(v == "c"), pause=(v == "c"))
+            else:
+                t = Task(task, ty, pause=True, relax=True)
+            info.tasks[task] = t
+            return
+        if v not in "xepr":
+            raise Reject("unknown task event")
+        if len(payload) < 4:
+            raise Reject("missing task id")
+        task_id = struct.unpack_from("<I", payload)[0]
+        if mc == "V":
+            if len(payload) < 8:
+                raise Reject("missing body id")
+            body_id = struct.unpack_from("<I", payload, 4)[0]
+        task = info.tasks.get(task_id)
+        if task is None:
+            raise Reject("unknown task")
+        if mc == "V":
+            if task.parallel:
+                if body_id == 0:
+                    raise Reject("parallel task needs body id > 0")
+            else:
+                if body_id != 0:
+                    raise Reject("non-parallel task needs body id 0")
+                body_id = 1
+        else:
+            body_id = 1
+        stack = th.bodies[mc]
+        prev = stack[-1] if stack and stack[-1].state == "running" else None
+        body = task.bodies.get(body_id)
+        if v == "x":
+            if body is None:
+                if not task.parallel and task.bodies:
+                    raise Reject("second body for non-parallel task")
+                body = Body(task, body_id)
+                created = True
+            else:
+                created = False
+            if body.state == "dead":
+                if not task.resurrect:
+                    raise Reject("task cannot run again")
+            elif body.state != "created":
+                raise Reject("execute in body state %s" % body.state)
+            if body.thread is not None:
+                raise Reject("body already on a stack")
+            if prev is not None and not prev.task.relax:
+                raise Reject("nesting over a running task")
+            if created:
+                task.bodies[body_id] = body
+            body.state = "running"
+            body.thread = th
+            stack.append(body)
+        else:
+            if body is None:
+                raise Reject("unknown body")
+            if v == "p":
+                if not task.can_pause:
+                    raise Reject("task cannot pause")
+                want = "running"
+            elif v == "r":
+                want = "paused"
+            else:
+                want = "running"
+            if body.state != want:
+                raise Reject("%s in body state %s" % (v, body.state))
+            if body.thread is not th:
+                raise Reject("body belongs to another thread")
+            if stack[-1] is not body:
+                raise Reject("body is not on top of the stack")
+            if v == "p":
+                body.state = "paused"
+            elif v == "r":
+                body.state = "running"
+            else:
+                body.state = "dead"
+                stack.pop()
+                body.thread = None
+        # subsystem channel
+        if v == "x":
+            self._push(th, mc, "subsystem", TASK_BODY[mc])
+        elif v == "e":
+            self._pop(th, mc, "subsystem", TASK_BODY[mc])
+        nxt = stack[-1] if stack and stack[-1].state == "running" else None
+        if nxt is not None:
+            t = nxt.task
+            if t.id == 0:
+                raise Reject("task id 0")
+            if v in "xe" and prev is not None and prev is nxt:
+                raise Reject("switch to the same body")
+            self._setq(th, mc, "taskid", t.id)
+            self._setq(th, mc, "type", info.types[t.type])
+            if mc == "V":
+                self._setq(th, mc, "bodyid", nxt.id)
+                self._setq(th, mc, "appid", th.proc.appid)
+            if th.proc.rank is not None:
+                self._setq(th, mc, "rank", th.proc.rank + 1)
+        else:
+            for cn in ("taskid", "type", "bodyid", "appid", "rank"):
+                if (mc, cn) in th.ch:
+                    if cn == "rank" and th.proc.rank is None:
+                        continue
+                    th.ch[(mc, cn)] = None
+
+    def _setq(self, th, mc, cn, val):
+        c = self._chanspec(mc, cn)
+        if not c["dup"] and th.ch[(mc, cn)] == val:
+            raise Reject("same %s set again" % cn)
+        th.ch[(mc, cn)] = val
+
+    # -- views ----------------------------------------------------------------
+    @staticmethod
+    def _raw(v):
+        if isinstance(v, list):
+            return v[-1] if v else None
+        return v
+
+    @staticmethod
+    def _shown(th, mode):
+        return mode == "any" or (mode == "running" and th.running) or (mode == "active" and th.active)
+
+    def model_thread_view(self):
+        v = {}
+        for t in self.thread_rows:
+            for (mc, cn), val in t.ch.items():
+                c = self._chanspec(mc, cn)
+                raw = self._raw(val)
+                if raw is not None and self._shown(t, c["th"]):
+                    v[(t.row, c["type"])] = raw
+            for ty, val in t.mark.items():
+                raw = self._raw(val)
+                if raw is not None and t.active:
+                    v[(t.row, 100 + ty)] = raw
+        return v
+
+    def model_cpu_view(self):
+        """Values may be OneOf(...) where the property allows alternatives."""
+        v = {}
+        for c in self.cpu_rows:
+            r = c.running_thread()
+            for mc in self.enabled:
+                for cn, cs in self.sp["models"][mc]["channels"].items():
+                    if r is not None:
+                        raw = self._raw(r.ch[(mc, cn)])
+                        if raw is not None:
+                            v[(c.row, cs["type"])] = raw
+                    elif cn == "idle":
+                        v[(c.row, cs["type"])] = OneOf(None, "Resting")
+            if r is not None:
+                for ty, val in r.mark.items():
+                    raw = self._raw(val)
+                    if raw is not None:
+                        v[(c.row, 100 + ty)] = raw
+        return v
+
+    def open_regions(self, lint_models="V6DMTP"):
+        """Threads that still have open subsystem/function regions (lint)."""
+        res = []
+        for t in self.thread_rows:
+            for (mc, cn), val in t.ch.items():
+                if mc in lint_models and cn in ("subsystem", "function") and isinstance(val, list) and val:
+                    res.append((t.tid, mc, cn, list(val)))
+        return res
+
+
+class OneOf:
+    def __init__(self, *alts):
+        self.alts = alts
+
+    def __eq__(self, other):
+        return other in self.alts
+
+    def __ne__(self, other):
+        return other not in self.alts
+
+    def __hash__(self):
+        return hash(self.alts)
+
+    def __repr__(self):
+        return "OneOf%r" % (self.alts,)
